@@ -31,7 +31,13 @@ def jobs_for(prop, tier, rng):
             add("burst2_%d" % i, "burst", 2, burst=900, threads=3, blocks=8192)
             add("burst4_%d" % i, "burst", 4, burst=1500, threads=3, blocks=12288)
             add("pinned_%d" % i, "pinned", 4, steps=30)
+        if prop in ("C19",):
+            add("stopgo2_%d" % i, "stopgo", 2, rounds=6, blocks=16384)
+            add("stopgo4_%d" % i, "stopgo", 4, rounds=6, blocks=16384)
+            add("stopgo6_%d" % i, "stopgo", 6, rounds=5, blocks=16384)
         if prop in ("C02",):
+            add("flushy4_%d" % i, "mixed", 4, steps=90, threads=4, flushpct=35)
+            add("flushy6_%d" % i, "mixed", 6, steps=80, threads=5, flushpct=30)
             add("bigburst_%d" % i, "bigburst", 2, burst=7, blocks=20480)
             add("bigburst4_%d" % i, "bigburst", 4, burst=12, blocks=28672)
         if prop in ("C08",):
